@@ -146,7 +146,7 @@ LedgerEvents(s) ==
   \cup (IF Thorough \/ s.now = 3 THEN ExpImp ELSE {})
   \cup (IF s.now = 3 /\ s.nextB > 1 THEN Queries(IF Thorough THEN {1, 2} ELSE {1}, W1) ELSE {})
 
-WVariants == {W1, [W1 EXCEPT !.from = "up:u2"], [W1 EXCEPT !.amt = 2], [W1 EXCEPT !.to = "u2"], [W1 EXCEPT !.from = "u1", !.to = "u2"], [W1 EXCEPT !.seq = 2], [W1 EXCEPT !.denom = "d2"]}
+WVariants == {W1, [W1 EXCEPT !.denom = "l2/1/d1"], [W1 EXCEPT !.from = "up:u2"], [W1 EXCEPT !.amt = 2], [W1 EXCEPT !.to = "u2"], [W1 EXCEPT !.from = "u1", !.to = "u2"], [W1 EXCEPT !.seq = 2], [W1 EXCEPT !.denom = "d2"]}
 BadPos == {c \in {Claim("x", b, o, w, 0, t, pos, "h1", "none") : b \in {1, 2}, o \in 1..3, w \in {W1, W2, W3}, t \in {"T1", "T2", "T3"}, pos \in 1..3} : c.pos > Len(c.tree.leaves)}
           \cup {c \in {Claim("u1", 1, o, w, v, t, pos, h, m) : o \in 1..2, w \in WVariants, v \in {0, 1}, t \in {"T1"}, pos \in {2}, h \in {"h1", "h2"}, m \in ProofMuts \cup {"len31"}} : TRUE}
 InTree(S) == {c \in S : c.pos <= Len(c.tree.leaves)}     \* the harness builds proofs for existing positions only
@@ -205,7 +205,7 @@ AuthEvents(s) ==
 
 PermMetas == {MetaNone, [cls |-> "perm", chs |-> <<"ch1">>], [cls |-> "perm", chs |-> <<"ch1", "ch2">>],
               [cls |-> "unknownField", chs |-> <<"ch1">>], [cls |-> "casedKey", chs |-> <<"ch2">>],
-              [cls |-> "perm", chs |-> <<"ch2", "ch2">>], [cls |-> "trailing", chs |-> <<"ch1">>]}
+              [cls |-> "perm", chs |-> <<"ch2", "ch2">>], [cls |-> "trailing", chs |-> <<"ch1">>], [cls |-> "incomplete", chs |-> <<"ch1">>]}
               \cup (IF Thorough THEN {[cls |-> "notJSON", chs |-> <<"ch1">>], [cls |-> "wrongType", chs |-> <<"ch1">>]} ELSE {})
 PermEvents(s) ==
   Creates(s, {"x"}, {Cfg("p1", c, 2, m) : c \in {"c1", "c2"}, m \in PermMetas})
@@ -238,6 +238,7 @@ WindowEvents(s) ==
   \cup Deletes({"c1"}, {1}, 1..2)
   \cup (IF s.l1seq["1"] <= 1 THEN Deposits({"u1"}, {1}, {"u2"}, {"d1"}, {1}, {"p0"}) ELSE {})
   \cup {Claim("x", 1, o, W1, 0, "T1", 1, "h1", "none") : o \in 1..2}
+  \cup UpdProposer({"gov", "p1"}, {1}, {"p2"})       \* the proposer is replaced while outputs are pending
   \cup (IF s.now = 0 THEN {[type |-> "InitRaw", period |-> p] : p \in {-1, 0, 1}} ELSE {})     \* a genesis file with other periods handed to InitGenesis
 
 Events(s) ==
